@@ -198,7 +198,7 @@ def gen_exist(ctx):
 def gen_wrap(ctx):
     rng = ctx.rng
     cases = []
-    for bits in [256, 257, 1024, 8192, 8185] + [rng.randrange(256, 8193) for _ in range(60 if ctx.thorough else 10)]:
+    for bits in [256, 257, 1024, 8192, 8185] + [rng.randrange(256, 8193) for _ in range(400 if ctx.thorough else 15)]:
         ikm = rng.choice([rb(rng, 256), rb(rng, 256), bytes(256), bytes([0xff]) * 256, rb(rng, 7) * 40])[:256]
         salt = rng.choice([0, 1, 0xffffffff, 0x01020304, rng.getrandbits(32)])
         cases.append(("WRAP", ikm.hex(), "%08x" % salt, bits))
@@ -536,6 +536,14 @@ def run(ctx):
         "{0,31,32,1023,1024,1025,4096,8191,last,random}, one byte appended/removed; non-trivial = every case "
         "(distinct by content)")
     oracle = vlib.build_oracle(ctx, "keys")
+    ctx.cov["trusted_base"] += [
+        "extract/stubs.c ml_hmac/ml_hash over libgcrypt (the model's hmac and SHA-1; munged/mungekey use OpenSSL)",
+        "tools/probes/keys_probe.c (runs key.c with open/unlink/close, hkdf setters and entropy readers interposed)",
+        "harness/hkdf_harness.c, subkeys_harness.c, keywrap.c; Python hmac/hashlib as the independent RFC 5869 / SHA-1 reference",
+    ]
+    ctx.notes.append("mungekey/munged objects are built with -fno-sanitize=shift-base: src/common/rotate.c shifts ~0 "
+                     "(a negative int) left, which UBSan flags on every mungekey run; it only stirs the HKDF salt "
+                     "(see seeded/fixes/rotate-shift-ub.diff)")
     facts = read_facts()
     R = vlib.REPO
     libs = ["-lcrypto", "-lpthread"]
